@@ -139,7 +139,10 @@ static int get_ea_68000(
       }
       else if (reg == 1)
       {
-        snprintf(ea, length, "(0x%x)", READ_RAM32(address + 2 + skip));
+        int32_t value = READ_RAM32(address + 2 + skip);
+        // The assembler picks (xxx).w for an address that fits in 16 bits.
+        if (value >= -32768 && value <= 0xffff) { snprintf(ea, length, "(0x%x).l", value); }
+        else { snprintf(ea, length, "(0x%x)", value); }
         return 6;
       }
       else if (reg == 2)
